@@ -25,7 +25,7 @@ import (
 	"github.com/tigerwill90/fox"
 )
 
-const rule = "cases = mutation histories (as C02) with snapshot-taking steps inserted at random points, including inside write transactions between writes; uniform histories, directed transaction stories and fully populated >50-children pools; every route is stamped with its model id so that a route object edited in place shows; " +
+const rule = "cases = mutation histories (as C02) with snapshot-taking steps inserted at random points, including inside write transactions between writes; uniform histories, directed transaction stories and fully populated >50-children pools; every route is stamped with its model id so that a route object edited in place shows; verb stories (roots of custom verbs removed and re-created between writes); n snapshots between two writes of one transaction for n around powers of two up to 65537; " +
 	"evaluations = re-observations of a retained snapshot after a later operation; distinct by (history prefix, snapshot index); " +
 	"non-trivial when at least one successful write happened between the snapshot and the re-observation"
 
